@@ -30,7 +30,7 @@ def op_strategy(kind, none_p=True, bulk_empty=True, heavy=True, only=None):
     mem1 = members_of(kind, 0 if bulk_empty else 1, 4, none_p)
     b = st.booleans()
     ct = st.sampled_from(CTYPES)
-    ct2 = st.sampled_from(["list", "tuple", "set", "frozenset"])  # re-iterable (bulk adders iterate twice)
+    ct2 = st.sampled_from(["list", "tuple", "set", "frozenset", "iter"])  # one-shot iterators too: "an iterable of node IDs"
     outer = st.sampled_from(["list", "tuple", "gen"])
 
     def bulk(fmt):
@@ -74,7 +74,7 @@ def op_strategy(kind, none_p=True, bulk_empty=True, heavy=True, only=None):
         (1, "random_edge_shuffle", st.tuples(st.just("random_edge_shuffle"), st.none(), st.none(), st.integers(0, 10**6)).map(list)),
         (4, "add_node_to_edge", st.tuples(st.just("add_node_to_edge"), e_or_none, n_or_none).map(list)),
         (3, "remove_edge", st.tuples(st.just("remove_edge"), e).map(list)),
-        (2, "remove_edges_from", st.tuples(st.just("remove_edges_from"), st.lists(e, max_size=3)).map(list)),
+        (4, "remove_edges_from", st.tuples(st.just("remove_edges_from"), nets.eid_removal_list).map(list)),
         (4, "remove_node_from_edge", st.tuples(st.just("remove_node_from_edge"), e, nm, b).map(list)),
         (1, "update", st.tuples(st.just("update"), st.one_of(st.none(), st.lists(members_of(kind, 1, 3, False), max_size=2)), st.one_of(st.none(), st.lists(n, max_size=2))).map(list)),
         (1, "set_net_attr", st.tuples(st.just("set_net_attr"), st.sampled_from(["name", "tag"]), nets.attr_value).map(list)),
